@@ -480,9 +480,9 @@ class _ChildrenList(_TaskList):
         :raises RuntimeError: if WBS integrity lost (i.e. task with same ID already exists)
         """
         _check_not_none(task, 'Task')
-        task.parent = self.__parent
-        if len(self) > 0:
-            self.move(task, before=self[index])
+        siblings = [t for t in self._list if t is not task]
+        siblings.insert(index, task)
+        self.__parent.children = siblings
 
     def move(self, tasks: Union['Task', Iterable['Task']], before: Optional['Task'] = None,
              after: Optional['Task'] = None) -> None:
